@@ -14,7 +14,7 @@ namespace SkNet.Embedding
 variable {α : Type} [Field α] [LinearOrder α] [IsStrictOrderedRing α]
 
 /-- one application of the multiplier is the product with `Spec.rpMultiplierEntry` -/
-theorem rpMultiply_entry (n k : Nat) (hn : 0 < n) (a : Mat α) (reg : α) (hreg : 0 ≤ reg) (rw : Bool) (m : Mat α)
+theorem rpMultiply_entry (n k : Nat) (hn : 0 < n) (a : Mat α) (reg : α) (rw : Bool) (m : Mat α)
     (i c : Nat) (hi : i < n) (hc : c < k) :
     mget (rpMultiply n k a reg rw m) i c = ∑ j ∈ range n, Spec.rpMultiplierEntry n a reg rw i j * mget m j c := by
   have hn' : (n : α) ≠ 0 := Nat.cast_ne_zero.mpr (Nat.pos_iff_ne_zero.mp hn)
@@ -27,18 +27,19 @@ theorem rpMultiply_entry (n k : Nat) (hn : 0 < n) (a : Mat α) (reg : α) (hreg 
   | true =>
     simp only [rpMultiply, if_true, Spec.rpMultiplierEntry]
     unfold normalizerMatmat
-    by_cases hr : 0 < reg
-    · simp only [hr, if_true]
+    by_cases h0 : reg = 0
+    swap
+    · have hr : (!(reg == 0)) = true := by simp [h0]
+      simp only [hr, if_true]
       simp +contextual only [mget_mkMat, vget_tab, hi, hc, if_true, sumN_eq_sum, mul_one, one_mul]
       simp only [Spec.aReg, add_mul, Finset.sum_add_distrib, Finset.mul_sum, mul_add]
       congr 1
       · exact Finset.sum_congr rfl fun j _ => by ring
       · rw [Finset.sum_div, Finset.mul_sum, Finset.mul_sum]
         exact Finset.sum_congr rfl fun j _ => by field_simp
-    · have h0 : reg = 0 := le_antisymm (not_lt.mp hr) hreg
-      simp only [hr, if_false]
+    · simp only [h0, beq_self_eq_true, Bool.not_true, Bool.false_eq_true, if_false]
       simp +contextual only [mget_mkMat, vget_tab, hi, hc, if_true, sumN_eq_sum, mul_one]
-      simp only [Spec.aReg, h0, zero_div, add_zero, Finset.mul_sum]
+      simp only [Spec.aReg, zero_div, add_zero, Finset.mul_sum]
       exact Finset.sum_congr rfl fun j _ => by ring
 
 variable (n k : Nat) (a : Mat α) (reg alpha : α) (rw : Bool)
@@ -70,7 +71,7 @@ theorem lpow_eq (m g : Nat → Nat → α) (t i c : Nat) :
     exact Finset.sum_congr rfl fun j _ => by ring
 
 /-- loop invariant: after `t` iterations `factor = (αM)ᵗ G` and `embedding = Σ_{s ≤ t} (αM)ˢ G` -/
-theorem rpLoop_invariant (hn : 0 < n) (hreg : 0 ≤ reg) (q : Mat α) (t : Nat) :
+theorem rpLoop_invariant (hn : 0 < n) (q : Mat α) (t : Nat) :
     ∀ i c, i < n → c < k →
       mget (rpLoop n k a reg alpha rw t q q).1 i c
         = lpow n (Spec.rpMultiplierEntry n a reg rw) (mget q) alpha t i c ∧
@@ -85,7 +86,7 @@ theorem rpLoop_invariant (hn : 0 < n) (hreg : 0 ≤ reg) (q : Mat α) (t : Nat) 
     rw [rpLoop_succ']
     have hf : mget (mkMat n k fun i c => alpha * mget (rpMultiply n k a reg rw (rpLoop n k a reg alpha rw t q q).1) i c) i c
         = lpow n (Spec.rpMultiplierEntry n a reg rw) (mget q) alpha (t+1) i c := by
-      rw [mget_mkMat_lt _ hi hc, rpMultiply_entry n k hn a reg hreg rw _ i c hi hc]
+      rw [mget_mkMat_lt _ hi hc, rpMultiply_entry n k hn a reg rw _ i c hi hc]
       simp only [lpow]
       congr 1
       exact Finset.sum_congr rfl fun j hj => by rw [(ih j c (Finset.mem_range.mp hj) hc).1]
@@ -95,10 +96,10 @@ theorem rpLoop_invariant (hn : 0 < n) (hreg : 0 ≤ reg) (q : Mat α) (t : Nat) 
 
 /-- **`randomProjection_closed_form`**: after `K` iterations the (un-normalised) embedding is
     `Σ_{t ≤ K} αᵗ Mᵗ G`, `M` the regularised adjacency or transition matrix, `G` the random matrix. -/
-theorem rpLoop_closed_form (hn : 0 < n) (hreg : 0 ≤ reg) (q : Mat α) (K : Nat) (i c : Nat) (hi : i < n) (hc : c < k) :
+theorem rpLoop_closed_form (hn : 0 < n) (q : Mat α) (K : Nat) (i c : Nat) (hi : i < n) (hc : c < k) :
     mget (rpLoop n k a reg alpha rw K q q).2 i c
       = Spec.rpClosedForm n (Spec.rpMultiplierEntry n a reg rw) alpha (mget q) K i c := by
-  rw [(rpLoop_invariant n k a reg alpha rw hn hreg q K i c hi hc).2, Spec.rpClosedForm, sumN_eq_sum]
+  rw [(rpLoop_invariant n k a reg alpha rw hn q K i c hi hc).2, Spec.rpClosedForm, sumN_eq_sum]
   exact Finset.sum_congr rfl fun s _ => lpow_eq n alpha _ _ s i c
 
 end SkNet.Embedding
